@@ -170,7 +170,7 @@ def handle (env : Env) (j : Json) : R (Env × Json) := do
         let ds ← (← e.getArr?).toList.mapM tyDefOfJson
         pure (ds.toArray, jOk [("n", Json.num ds.length)])
   | "wf" =>        -- the decidable predicates of Props.C03 evaluated on the current environment
-      pure (env, jOk [("wf", Json.bool (SchemaWF.wfEnv env)),
+      pure (env, jOk [("wf", Json.bool (SchemaWF.wfEnv env (SchemaWF.mkInfo env))),
                       ("proved", jNats (SchemaWF.provedTypes env)),
                       ("bad", jNats (SchemaWF.badTypes env))])
   | op => throw s!"unknown op {op}"
